@@ -217,12 +217,24 @@ func (s *Session) delSub(topic string) {
 // is found here under the same name is either a leftover or a new subscription made meanwhile,
 // which is retained if it points to the currently loaded instance of the topic.
 func (s *Session) delStaleSub(topic string) {
-	if sub := s.getSub(topic); sub != nil && globals.hub != nil {
+	if s.multi != nil {
+		s.multi.delStaleSub(topic)
+		return
+	}
+	// Check and delete under one lock: a topic may be adding a new subscription right now.
+	s.subsLock.Lock()
+	defer s.subsLock.Unlock()
+
+	sub := s.subs[topic]
+	if sub == nil {
+		return
+	}
+	if globals.hub != nil {
 		if t := globals.hub.topicGet(topic); t != nil && t.unreg == sub.done {
 			return
 		}
 	}
-	s.delSub(topic)
+	delete(s.subs, topic)
 }
 
 func (s *Session) countSub() int {
